@@ -97,7 +97,7 @@ def run_item(item):
         for k in idxs:
             spec = specs[k]
             if tier == "quick-shallow":
-                for pfx in ([b"", b"\x49"] if mode64 else [b""]):
+                for pfx in ([b"", b"\x49", b"\x67"] if mode64 else [b""]):
                     check_spec(cpu, mode64, spec, pfx, 14 - len(pfx), tier, res)
                 continue
             for pfx in prefixes(mode64, tier):
@@ -269,7 +269,7 @@ def coverage(agg, tier):
         "witnesses_outside_the_statement": {"reference says outside": agg.get("outside_reference", 0), "tools disagree or reject": agg.get("tools_disagree_or_reject", 0), "amoco does not decode": agg.get("undecoded_by_amoco", 0)},
         "reference_tools": {"objdump": TOOLS.OBJDUMP, "llvm-mc": TOOLS.LLVMMC},
         "rule": "state = one path of cpu.disassemble for a focused spec behind a prefix; obligation = on one sub-path of the reference decoder under that path condition: reference length == amoco length (and displacement equality for relative branches), for all bytes of the sub-path; traces validated = proven sub-path witnesses on which amoco, objdump and llvm-mc agree",
-        "bounds": {"specs": "quick: 1/40 of the shipped x86 and x64 specs (seeded) in depth, every other spec shallowly (<= 8 decode paths, no prefix / REX.WB); thorough: 1/20 in depth, every other spec shallowly", "prefixes": "quick: none, 66, REX.WB; thorough: + 67, F3, REX.W, REX.WR (64-bit) / 66+67 (32-bit)",
+        "bounds": {"specs": "quick: 1/40 of the shipped x86 and x64 specs (seeded) in depth, every other spec shallowly (<= 8 decode paths, no prefix / REX.WB / 67 in 64-bit mode); thorough: 1/20 in depth, every other spec shallowly", "prefixes": "quick: none, 66, REX.WB; thorough: + 67, F3, REX.W, REX.WR (64-bit) / 66+67 (32-bit)",
                    "window": "14 bytes including the prefix", "paths": "quick <= 600 decode paths and 40 s per focus, 30 s per reference exploration; thorough <= 1500 / 60 s",
                    "outside": "see assumptions; paths beyond the caps (counted as incomplete)"},
         "stubs": symx.STUBS,
